@@ -190,56 +190,110 @@ def getopt (os : Str) (argv : List Str) : List Tok × List Str := getoptGo os fa
 /-! ### opt_args_early -/
 
 def earlyTok (c : Cfg) : Tok → Cfg
-  | .opt 'M' (some a) => { c with miscModules := some a }
-  | _ => c
+  | .opt ch arg => if ch = 'M' then { c with miscModules := some (arg.getD []) } else c
+  | .bad => c
 
 def optArgsEarly (c : Cfg) (toks : List Tok) : Cfg := toks.foldl earlyTok c
 
 /-! ### opt_args -/
 
-/-- one iteration of the `switch (c)` of opt_args; `.error n` = the process exits with n right there -/
-def applyTok (fx : Fixes) (d : Defaults) (_p : Pers) (c : Cfg) : Tok → Except Nat Cfg
-  | .bad => .error 1                                   -- default: mod_process_opt < 0 -> _usage -> exit (1)
+inductive Flag where
+  | S | k | q | w | y | z | Z
+  deriving DecidableEq, Repr
+
+/-- what one iteration of the `switch (c)` of opt_args does to the option record -/
+inductive Act where
+  | keep
+  | exit (n : Nat)              -- the process exits with n right there
+  | fanout (v : Int)
+  | ctmo (v : Int)
+  | utmo (v : Int)
+  | ruser (s : Str)
+  | rcmd (s : Str)
+  | path (s : Str)
+  | flag (f : Flag)
+  deriving DecidableEq, Repr
+
+/-- the `case` an option character selects in the `switch (c)` of opt_args -/
+inductive Case where
+  | keep                 -- break without touching the settings (M N x b r p K)
+  | exit0                -- L V T
+  | usage                -- h, and `default:` for characters no module handles (c I)
+  | rcmd | fanout | ctmo | utmo | ruser | path
+  | flag (f : Flag)
+  | dbg                  -- 'd': there is no `case 'd'`
+  deriving DecidableEq, Repr
+
+def caseOf (ch : Char) : Case :=
+  match ch with
+  | 'M' => .keep            -- handled in opt_args_early
+  | 'N' => .keep
+  | 'L' => .exit0           -- mod_list_module_info (); exit (0)
+  | 'R' => .rcmd
+  | 'S' => .flag .S
+  | 'f' => .fanout
+  | 'w' => .flag .w
+  | 'x' => .keep
+  | 'q' => .flag .q
+  | 't' => .ctmo
+  | 'u' => .utmo
+  | 'b' => .keep
+  | 'l' => .ruser
+  | 'r' => .keep
+  | 'p' => .keep
+  | 'e' => .path            -- only in the PCP option string
+  | 'V' => .exit0           -- _show_version (); exit (0)
+  | 'T' => .exit0           -- testcase (): exit (0)   (never generated)
+  | 'Q' => .flag .q
+  | 'h' => .usage
+  | 'K' => .keep
+  | 'y' => .flag .y
+  | 'z' => .flag .z
+  | 'Z' => .flag .Z
+  | 'k' => .flag .k
+  | 'd' => .dbg
+  | _ => .usage             -- 'c', 'I': in the option string, handled by no module
+
+/-- the `switch (c)` of opt_args -/
+def action (fx : Fixes) (d : Defaults) : Tok → Act
+  | .bad => .exit 1                                    -- default: mod_process_opt < 0 -> _usage -> exit (1)
   | .opt ch arg =>
     let a := arg.getD []
-    if ch = 'M' then .ok c
-    else if ch = 'N' then .ok c
-    else if ch = 'L' then .error 0                     -- mod_list_module_info (); exit (0)
-    else if ch = 'R' then .ok { c with rcmdName := some a }
-    else if ch = 'S' then .ok { c with retRemoteRc := true }
-    else if ch = 'f' then
-      match stringToInt fx a with
-      | some v => .ok { c with fanout := v }
-      | none => .error 1                               -- errx ("Invalid fanout")
-    else if ch = 'w' then .ok { c with hasWcoll := true }
-    else if ch = 'x' then .ok c
-    else if ch = 'q' then .ok { c with infoOnly := true }
-    else if ch = 't' then
-      match timeoutArg fx a with
-      | some v => .ok { c with connectTimeout := v }
-      | none => .error 1
-    else if ch = 'u' then
-      match timeoutArg fx a with
-      | some v => .ok { c with commandTimeout := v }
-      | none => .error 1
-    else if ch = 'b' then .ok c
-    else if ch = 'l' then
-      if a.length > d.loginMax then .error 1           -- copy_username: errx
-      else .ok { c with ruser := a }
-    else if ch = 'r' then .ok c
-    else if ch = 'p' then .ok c
-    else if ch = 'e' then .ok { c with remotePath := a }        -- only in the PCP option string
-    else if ch = 'V' then .error 0                     -- _show_version (); exit (0)
-    else if ch = 'T' then .error 0                     -- testcase (): exit (0)   (never generated)
-    else if ch = 'Q' then .ok { c with infoOnly := true }
-    else if ch = 'h' then .error 1                     -- _usage
-    else if ch = 'K' then .ok c
-    else if ch = 'y' then .ok { c with targetIsDir := true }
-    else if ch = 'z' then .ok { c with pcpServer := true }
-    else if ch = 'Z' then .ok { c with pcpClient := true }
-    else if ch = 'k' then .ok { c with killOnFail := true }
-    else if ch = 'd' then (if fx.dopt then .ok c else .error 1)   -- no `case 'd'`: default -> _usage
-    else .error 1                                      -- 'c', 'I': in the option string, handled by no module
+    match caseOf ch with
+    | .keep => .keep
+    | .exit0 => .exit 0
+    | .usage => .exit 1
+    | .rcmd => .rcmd a
+    | .fanout => (stringToInt fx a).elim (.exit 1) .fanout          -- errx ("Invalid fanout")
+    | .ctmo => (timeoutArg fx a).elim (.exit 1) .ctmo
+    | .utmo => (timeoutArg fx a).elim (.exit 1) .utmo
+    | .ruser => if a.length > d.loginMax then .exit 1 else .ruser a   -- copy_username: errx
+    | .path => .path a
+    | .flag f => .flag f
+    | .dbg => if fx.dopt then .keep else .exit 1       -- default: -> _usage
+
+def setFlag (c : Cfg) : Flag → Cfg
+  | .S => { c with retRemoteRc := true }
+  | .k => { c with killOnFail := true }
+  | .q => { c with infoOnly := true }
+  | .w => { c with hasWcoll := true }
+  | .y => { c with targetIsDir := true }
+  | .z => { c with pcpServer := true }
+  | .Z => { c with pcpClient := true }
+
+def perform (c : Cfg) : Act → Except Nat Cfg
+  | .keep => .ok c
+  | .exit n => .error n
+  | .fanout v => .ok { c with fanout := v }
+  | .ctmo v => .ok { c with connectTimeout := v }
+  | .utmo v => .ok { c with commandTimeout := v }
+  | .ruser s => .ok { c with ruser := s }
+  | .rcmd s => .ok { c with rcmdName := some s }
+  | .path s => .ok { c with remotePath := s }
+  | .flag f => .ok (setFlag c f)
+
+def applyTok (fx : Fixes) (d : Defaults) (_p : Pers) (c : Cfg) (t : Tok) : Except Nat Cfg :=
+  perform c (action fx d t)
 
 def applyToks (fx : Fixes) (d : Defaults) (p : Pers) : Cfg → List Tok → Except Nat Cfg
   | c, [] => .ok c
